@@ -1298,13 +1298,14 @@ def ref_modelled(impl, x, key, y, scope, into_copy=False):
       return False
   if t_route(dict_, t):
     b = t_bound(dict_, t)
-    if b is None: return ys is None or bool(y.allow_partial) == bool(p)
+    own = bool(x.allow_partial) and not into_copy      # (the flag must also be the container's own: a copy of the container applies its fields under that flag)
+    if b is None: return ys is None or (bool(y.allow_partial) == bool(p) and bool(y.allow_partial) == own)
     if ys is None: return False
     try:
       same = TImpl.spec_line(c04.render(ys)) == TImpl.spec_line(b) and impl.spec_ref(y) >= 1
     except c04.Unrenderable:
       return False
-    return same and bool(y.allow_partial) == bool(p)
+    return same and bool(y.allow_partial) == bool(p) and bool(y.allow_partial) == own
   return ys is None
 
 def scope_restrictive(scope):
@@ -2026,7 +2027,7 @@ def run(ctx):
     c[0] = list(quirks) + [prime]; cases.append(c); kinds.append('sweep-nested-objects')
   ctx.extra['sweep_nested_objects'] = dict(cases=len(nested))
   ctx.extra['sweep_by_reference'] = dict(total=len(rsweep) + len(tsweep), run=sum(1 for k in kinds if k.startswith('sweep-by-reference')), exhaustive=bool(ctx.thorough))
-  n = ctx.scale(900, 20000)
+  n = ctx.scale(900, 17000)
   gens = [(TGen(rng, quirks), 'random', 0.6), (TGen(rng, quirks, p_invalid=0.5), 'random-invalid', 0.2),
           (TGen(rng, quirks, focus={D.REBIND, D.DUPDATE, D.LEXTEND, D.LIADD, D.LIMUL, D.DCLEAR, D.LCLEAR, D.DPOP, D.LPOP, D.LDEL}), 'batch-and-removal', 0.2)]
   for g, kind, w in gens:
